@@ -56,7 +56,8 @@ class BeakerCacheImpl(CacheImpl):
 
         if "region" in kw:
             region = kw.pop("region")
-            cache = _beaker_cache.get_cache_region(self.cache.id, region, **kw)
+            # (the region holds the rest of the configuration)
+            cache = _beaker_cache.get_cache_region(self.cache.id, region)
         else:
             cache = _beaker_cache.get_cache(self.cache.id, **kw)
         cache_args = {"starttime": self.cache.starttime}
